@@ -160,6 +160,24 @@ pub fn run(tier: Tier) -> i32 {
         run.machinery(e.clone());
     }
     run.merge_violations(sw.violations);
+    // ... and the item pool under 0.7.6 / 0.8.3 / 0.8.19 with SafeMath attached (chained SafeMath calls, multi-part
+    // revert strings): the version-gated detectors report locations too
+    {
+        let items: Vec<(String, String, Vec<usize>)> = pool
+            .iter()
+            .filter(|p| p.tag.starts_with("S.pool"))
+            .map(|p| {
+                let (t, o) = crate::synth::render_l1(&p.toks);
+                (p.tag.clone(), t, o)
+            })
+            .collect();
+        let sw2 = refdet::sweep_texts(&items, &crate::dets::all(), refdet::Mode::LocationOnly);
+        for e in &sw2.machinery {
+            run.machinery(e.clone());
+        }
+        run.add("location_checks_pool_programs", sw2.programs);
+        run.merge_violations(sw2.violations);
+    }
 
     run.set("states", (ts.len() + sw.programs as usize) as u64);
     run.set("transitions", calls_a + calls_l + sw.calls);
